@@ -16,6 +16,11 @@ Exhaustive product
 * tabulation: node lists (length <= 3 in quick, all in thorough) x system {Chiral (PythTB), zoo 3-band triclinic
   with AA} x k_batch {1,2,3,50} x {path object, nodes+length} : for every path point j, in path order,
   Energy / band gradients / Berry curvature of the TABresult equal `evaluate_k` at K_list[j]; result.kpoints is the path.
+* zoom paths (same oracle): straight 9-point paths with a spacing of {2.5e-6, 1e-6, 4e-7} in reduced coordinates (below the
+  1e-5 tolerance with which `self_to_path` identifies evaluated and path points) through centre {gen, K} along
+  {(1,-1,0), (1,0,0), skew} x system x k_batch {1,2,50} x entry {path with nk ; nodes + huge length ; coarse path refined
+  by a factor 8}. Neighbouring points are distinct k-points with distinct values (checked per case: it is the premise for
+  the case to count), so every point must still carry the values of its own k-point, not those of a close neighbour.
 * band selection: `evaluate_k_path(ibands=...)` x {named quantities, user tabulators} returns the selected bands of
   the single-point values, and evaluating the same points alone afterwards (all bands) is unaffected.
 """
@@ -28,13 +33,19 @@ LEVEL = "exploration"
 RULE = ("cases = (node list over the 7-letter alphabet, lattice) for construction and (node list, system, k_batch, "
         "entry) for tabulation; a construction case runs every (labels, sampling, refinement, k_batch, break_thresh) "
         "combination; non-trivial = the node list has a break or >= 2 segments (construction), the path has more "
-        "points than k_batch or a break or a periodic image / revisited point (tabulation)")
+        "points than k_batch or a break or a periodic image / revisited point (tabulation); zoom tabulation cases = "
+        "(centre, direction, spacing, system, k_batch, entry), non-trivial = the reference energies of every two "
+        "neighbouring path points differ by more than 100 x the comparison tolerance")
 ASSUMPTIONS = [
     "nk >= 2 (a segment needs both end points), dk/length chosen away from rounding ties of the point count",
     "None (break) never first or last in the node list, as the docstring of Path requires",
     "serial evaluation only (parallel=False); completion-order schedules are explored by C12",
     "tabulators: Energy, band gradients, Berry curvature with default degeneracy threshold on both sides",
     "quick tabulates node lists of length <= 3; thorough all lengths <= 4",
+    "zoom paths: one straight segment of 9 points, spacings 2.5e-6 / 1e-6 / 4e-7 (largest reduced component of the step), "
+    "two centres x three directions; quick runs the entries 'nodes'(length) and 'refined' with k_batch=2 only; spacings "
+    "below 4e-7 (where neighbouring energies approach the 1e-9 comparison tolerance), zoom paths with breaks or several "
+    "segments and zooms exactly onto a degeneracy are not covered",
 ]
 
 NODE_ALPHABET = {"G": (0.0, 0.0, 0.0), "X": (0.5, 0.0, 0.0), "M": (0.5, 0.5, 0.0), "R": (0.5, 0.5, 0.5),
@@ -43,6 +54,22 @@ RECIP = {"sc": (2 * np.pi * np.eye(3)).tolist(),
          "tric": [[6.1, 0.4, -0.3], [0.7, 5.2, 0.9], [-0.5, 1.1, 7.3]]}
 SAMPLINGS = [("nk", 2), ("nk", 3), ("nk", 5), ("nklist", (2, 5, 3)), ("nklist", (4, 2, 3)),
              ("dk", 0.53), ("dk", 1.71), ("length", 3.1), ("length", 11.0)]
+
+
+# zoom paths: centre +- 4 steps along a direction; the step is `spacing` x direction (largest |component| = 1)
+ZOOM_CENTRES = {"gen": NODE_ALPHABET["gen"], "K": (1.0 / 3, 2.0 / 3, 0.0)}
+ZOOM_DIRS = {"diag": (1.0, -1.0, 0.0), "axis": (1.0, 0.0, 0.0), "skew": (0.6, -0.3, 1.0)}
+ZOOM_STEPS = (2.5e-6, 1e-6, 4e-7)
+ZOOM_NPTS = 9
+ZOOM_REFINE = 8
+TAB_TOL = 1e-9          # x max(1, |value|): comparison of a path value with the single-point value
+
+
+def zoom_nodes(zoom):
+    c = np.array(ZOOM_CENTRES[zoom["centre"]], dtype=float)
+    d = np.array(ZOOM_DIRS[zoom["dir"]], dtype=float) * zoom["step"]
+    h = (ZOOM_NPTS - 1) // 2
+    return [(c - h * d).tolist(), (c + h * d).tolist()]
 
 
 def node_lists(maxlen):
@@ -275,24 +302,46 @@ def get_system(name, seed):
 def run_tab(case, seed):
     import wannierberri as wb
     from wannierberri.grid import Path
-    seq = case["nodes"]
-    nodes = coords(seq)
+    zoom = case.get("zoom")
     system = get_system(case["system"], seed)
     kb = case["k_batch"]
-    real = [s for s in seq if s is not None]
+    if zoom:
+        nodes = zoom_nodes(zoom)
+        real = nodes
+        case = dict(case, nodes=f"zoom {zoom}")          # (for the failure texts)
+    else:
+        seq = case["nodes"]
+        nodes = coords(seq)
+        real = [s for s in seq if s is not None]
     labels = [f"L{i}" for i in range(len(real))]
     if case["entry"] == "path":
-        path = Path.from_nodes(system, nodes=nodes, labels=labels, nk=case["nk"])
+        nk = ZOOM_NPTS if zoom else case["nk"]
+        path = Path.from_nodes(system, nodes=nodes, labels=labels, nk=nk)
         res = wb.evaluate_k_path(system, path=path, quantities=QUANTITIES, parallel=False, k_batch=kb)
-        K, labs, breaks = ref_path(nodes, labels, ("nk", case["nk"]), system.recip_lattice)
+        K, labs, breaks = ref_path(nodes, labels, ("nk", nk), system.recip_lattice)
+    elif case["entry"] == "refined":
+        # a coarse path refined by a high factor (zoom only)
+        nk = (ZOOM_NPTS - 1) // ZOOM_REFINE + 1
+        path = Path.from_nodes(system, nodes=nodes, labels=labels, nk=nk).get_refined(factor=ZOOM_REFINE)
+        res = wb.evaluate_k_path(system, path=path, quantities=QUANTITIES, parallel=False, k_batch=kb)
+        K, labs, breaks, _ = ref_refined(*ref_path(nodes, labels, ("nk", nk), system.recip_lattice), ZOOM_REFINE)
     else:
-        path, res = wb.evaluate_k_path(system, nodes=nodes, labels=labels, length=case["length"],
+        if zoom:
+            # the `length` (2 pi / dk) that gives exactly ZOOM_NPTS points: the ratio segment/dk is an integer, far from a tie
+            seg = np.linalg.norm((np.array(nodes[1]) - np.array(nodes[0])) @ np.array(system.recip_lattice))
+            length = float(2 * np.pi * (ZOOM_NPTS - 1) / seg)
+        else:
+            length = case["length"]
+        path, res = wb.evaluate_k_path(system, nodes=nodes, labels=labels, length=length,
                                        quantities=QUANTITIES, parallel=False, k_batch=kb)
-        K, labs, breaks = ref_path(nodes, labels, ("length", case["length"]), system.recip_lattice)
-    why = same_path(path, K, labs, breaks)
+        K, labs, breaks = ref_path(nodes, labels, ("length", length), system.recip_lattice)
+    # (zoom: the spacing is 4e-7 .. 2.5e-6, the points themselves must still be exact)
+    why = same_path(path, K, labs, breaks, tol=1e-14 if zoom else 1e-12)
     if why:
         return fail("evaluate_k_path:path", case, why)
     npt = len(K)
+    if zoom and npt != ZOOM_NPTS:
+        return fail("harness:zoom_number_of_points", case, f"{npt} points")
     wrapped = K - np.round(K)
     revisits = len({tuple(np.round(k, 9)) for k in wrapped}) < npt
     nontrivial = []
@@ -302,27 +351,42 @@ def run_tab(case, seed):
         nontrivial.append(("break", case["system"], kb))
     if revisits:
         nontrivial.append(("revisit_or_image", case["system"], kb))
-    if differs(res.kpoints, K, 1e-12):
+    singles = []
+    for j in range(npt):
+        single = wb.evaluate_k(system, k=tuple(K[j]), quantities=QUANTITIES)
+        single["Energy"] = single["energy"]
+        singles.append(single)
+    if zoom:
+        # premise of a zoom case: the tabulated quantity varies along the path -- every two neighbouring points have
+        # energies that differ by more than 100 x the comparison tolerance (otherwise the case is run but does not count)
+        E = np.array([np.array(sg["energy"]) for sg in singles])
+        dmin = float(np.abs(np.diff(E, axis=0)).max(axis=1).min())
+        escale = max(1.0, float(np.abs(E).max()))
+        nontrivial = [("zoom", case["system"], zoom["centre"], zoom["dir"], zoom["step"], kb, case["entry"])] \
+            if dmin > 100 * TAB_TOL * escale else []
+    if differs(res.kpoints, K, 1e-14 if zoom else 1e-12):
         return fail("evaluate_k_path:kpoints_not_the_path", case, f"k_batch={kb}: {np.array(res.kpoints).tolist()} expected {K.tolist()}", bool(nontrivial))
     for q in QUANTITIES + ["Energy"]:
         if res.results[q].data.shape[0] != npt:
             return fail(f"evaluate_k_path:{q}:number_of_points", case, f"{res.results[q].data.shape} for {npt} points", bool(nontrivial))
     for j in range(npt):
-        single = wb.evaluate_k(system, k=tuple(K[j]), quantities=QUANTITIES)
-        single["Energy"] = single["energy"]
-        for q, v in single.items():
+        for q, v in singles[j].items():
             got = np.array(res.results[q].data[j])
             v = np.array(v)
             scale = max(1.0, np.abs(v).max())
-            if got.shape != v.shape or np.abs(got - v).max() > 1e-9 * scale:
+            if got.shape != v.shape or np.abs(got - v).max() > TAB_TOL * scale:
                 # is it another point's value?  (ordering defects)
-                where = [i for i in range(npt) if i != j and
-                         np.abs(np.array(wb.evaluate_k(system, k=tuple(K[i]), quantities=[q.lower() if q == "Energy" else q])) - got).max() < 1e-9 * scale]
+                where = [i for i in range(npt) if i != j and np.abs(np.array(singles[i][q]) - got).max() < TAB_TOL * scale]
                 cls = "value_of_another_point" if where else "wrong_value"
+                if zoom:
+                    cls += ":close_points"        # spacing below the matching tolerance of self_to_path
                 return fail(f"evaluate_k_path:{q}:{cls}", case,
                             f"entry={case['entry']} system={case['system']} k_batch={kb}: point {j} k={K[j].tolist()} got {got.tolist()} "
                             f"expected {v.tolist()}" + (f" (equals the value at point(s) {where})" if where else ""), bool(nontrivial))
-    return {"ok": True, "nontrivial": nontrivial or False, "obs": {"points": npt}}
+    obs = {"points": npt}
+    if zoom:
+        obs["min_neighbour_energy_difference"] = dmin
+    return {"ok": True, "nontrivial": nontrivial or False, "obs": obs}
 
 
 def run_ibands(case, seed):
@@ -403,6 +467,17 @@ def cases(tier, seed):
                 yield {"kind": "tab", "nodes": seq, "system": system, "k_batch": kb, "entry": "path", "nk": 3}
             for kb in ((2,) if quick else (1, 2, 50)):
                 yield {"kind": "tab", "nodes": seq, "system": system, "k_batch": kb, "entry": "nodes", "length": 2.3}
+    # zoom paths: spacing below the 1e-5 with which self_to_path matches evaluated points to path points
+    for system in ("chiral", "zoo"):
+        for centre in ZOOM_CENTRES:
+            for d in ZOOM_DIRS:
+                for step in ZOOM_STEPS:
+                    zoom = {"centre": centre, "dir": d, "step": step}
+                    for kb in (1, 2, 50):
+                        yield {"kind": "tab", "zoom": zoom, "system": system, "k_batch": kb, "entry": "path"}
+                    for entry in ("nodes", "refined"):
+                        for kb in ((2,) if quick else (1, 2, 50)):
+                            yield {"kind": "tab", "zoom": zoom, "system": system, "k_batch": kb, "entry": entry}
     # band selection (ibands) and its (non-)influence on later calls
     for system, ibs in (("chiral", ([0], [1], [0, 1])), ("zoo", ([1], [0, 2], [2, 1]))):
         for ib in ibs:
@@ -425,5 +500,10 @@ def finish(tier, cases, results):
     for c in cases:
         kinds[c["kind"]] = kinds.get(c["kind"], 0) + 1
     inner = sum(r.get("obs", {}).get("evaluations", 0) for r in results if r.get("obs"))
-    return {"cases_per_kind": kinds, "paths_built_and_compared": inner, "node_alphabet": list(NODE_ALPHABET) + ["None"],
+    kinds["tab_zoom"] = sum(1 for c in cases if c.get("zoom"))
+    dmins = [r["obs"]["min_neighbour_energy_difference"] for r in results if isinstance(r.get("obs"), dict) and "min_neighbour_energy_difference" in r["obs"]]
+    return {"cases_per_kind": kinds, "zoom": {"centres": {k: list(v) for k, v in ZOOM_CENTRES.items()}, "directions": {k: list(v) for k, v in ZOOM_DIRS.items()},
+                                               "spacings": list(ZOOM_STEPS), "points": ZOOM_NPTS,
+                                               "smallest_neighbour_energy_difference": min(dmins) if dmins else None,
+                                               "zoom_cases_below_premise": sum(1 for c, r in zip(cases, results) if c.get("zoom") and r.get("ok") and not r.get("nontrivial"))}, "paths_built_and_compared": inner, "node_alphabet": list(NODE_ALPHABET) + ["None"],
             "samplings": [list(map(str, s)) for s in SAMPLINGS]}
